@@ -532,6 +532,11 @@ class PurityWorld:
         if res is not obj:
             self.violate("fit_does_not_return_self", kind, f"{what} returned {type(res).__name__}")
         self.log.add("FIT", name, "ok", sorted(public_state(obj)))
+        for k, v in sorted(public_state(obj).items()):
+            if isinstance(v, np.ndarray) and v.dtype != object:
+                self.log.add(k, v)  # exact bytes
+            elif isinstance(v, (int, float, np.integer, np.floating)):
+                self.log.add(k, v)
         if len(m["fits"]) > 1 and any(f["ok"] for f in m["fits"][:-1]):
             self.refit_vs_twin(name, op)
 
@@ -625,6 +630,10 @@ class PurityWorld:
             return
         self.count("ops_ok")
         self.log.add("CALL", name, meth, "ok")
+        if isinstance(res, np.ndarray) and res.dtype != object:
+            self.log.add(res)
+        elif isinstance(res, (int, float, np.integer, np.floating)):
+            self.log.add(res)
         tag = op.get("tag", meth)
         m["reads"][tag] = res
         if meth == "fit_transform":
@@ -689,6 +698,10 @@ class PurityWorld:
             return
         self.count("ops_ok")
         self.log.add("FN", op["fn"], "ok")
+        if isinstance(res, np.ndarray) and res.dtype != object:
+            self.log.add(res)
+        elif isinstance(res, (int, float, np.integer, np.floating)):
+            self.log.add(res)
         if op.get("lane") is not None:
             self.results.setdefault(("fn", op["lane"]), []).append((op["fn"], res, op.get("env")))
 
